@@ -269,7 +269,13 @@ def query_jobs(tier, seed):
     jobs = [mc_job('mc_complex_small', 'complex', maxanns=2),
             gen_job('query_p6', 'remove', 6, depth=0 if quick else 1, style=0, reads=['queries'], **big),
             gen_job('query_p5', 'remove', 5, depth=0 if quick else 1, style=2, reads=['queries'], **big),
-            gen_job('query_p10', 'remove', 10, depth=0, size='v', style=3, reads=['queries'], **big)]
+            gen_job('query_p10', 'remove', 10, depth=0, size='v', style=3, reads=['queries'], **big),
+            # TEXT and RESOURCE results (stores without orphaned text selections; 'complex' adds annotations)
+            gen_job('tquery_p5', 'remove', 5, depth=0, style=2, reads=['textqueries'], **big),
+            gen_job('tquery_p10', 'remove', 10, depth=0, size='v', style=3, reads=['textqueries'], **big),
+            gen_job('tquery_p11', 'remove', 11, depth=0, style=0, reads=['textqueries'], MaxAnns=12, MaxRes=3, MaxData=10, MaxSets=2, MaxKeys=4),
+            gen_job('tquery_p6', 'remove', 6, depth=0, style=3, reads=['textqueries'], **big),
+            gen_job('tquery_c2', 'complex', 2, depth=1 if quick else 2, style=2, reads=['textqueries'], **big)]
     if not quick:
         jobs.append(gen_job('query_v5', 'all', 5, depth=1, size='v', style=0, reads=['queries'], **big))
     return jobs
@@ -384,9 +390,24 @@ def plan_for(prop, tier, seed, replay_file=None):
         big = dict(MaxAnns=10, MaxRes=3, MaxData=10, MaxSets=2, MaxKeys=4)
         find = [gen_job('find_p10', 'core', 10, depth=1, size='v', style=seed % 5, reads=['finddata'], **big),
                 gen_job('find_p5', 'remove', 5, depth=1, size='v', style=(seed + 1) % 5, reads=['finddata'], **big),
+                gen_job('loose_w1', 'core', 1, depth=2, size='w', style=(seed + 3) % 5, sample_mod=8 if tier == 'quick' else 1, **big),
+                gen_job('find_w1', 'core', 1, depth=1, size='w', style=(seed + 4) % 5, reads=['finddata'], **big),
                 gen_job('find_v1', 'core', 1, depth=1 if tier == 'quick' else 2, size='v', style=(seed + 2) % 5, reads=['finddata'], **big)]
         return dict(jobs=store_jobs(prop, tier, seed) + find, rule=STORE_RULE, assumptions=STORE_ASSUMPTIONS)
-    if prop in ('C01', 'C02', 'C03', 'C14'):
+    if prop == 'C14':
+        big = dict(MaxAnns=10, MaxRes=3, MaxData=10, MaxSets=2, MaxKeys=6)
+        batch = [gen_job('batch_p2', 'batch', 2, depth=1, style=seed % 5, per_state=False, **big),
+                 gen_job('batch_p5', 'batch', 5, depth=1 if tier == 'quick' else 2, style=(seed + 1) % 5, per_state=False, sample_mod=1 if tier == 'quick' else 7, **big)]
+        return dict(jobs=store_jobs(prop, tier, seed) + batch, rule=STORE_RULE, assumptions=STORE_ASSUMPTIONS)
+    if prop == 'C03':
+        big = dict(MaxAnns=10, MaxRes=3, MaxData=4)
+        # compaction (reindex) as the last step of a history of removals, then every lookup (preludes without annotations
+        # on annotations: with them the open finding on reindex leads to cyclic targets and the library recurses for minutes)
+        rt = [RT('reindex', 'memory')]
+        re_ = [gen_job('reindex_p5', 'remove', 5, depth=2 if tier == 'quick' else 3, style=seed % 5, reads=['lookup'], per_state=False, roundtrips=rt, **big),
+               gen_job('reindex_p10', 'remove', 10, depth=2, style=(seed + 3) % 5, reads=['lookup'], per_state=False, roundtrips=rt, MaxAnns=10, MaxRes=3, MaxData=8, MaxSets=2, MaxKeys=4)]
+        return dict(jobs=store_jobs(prop, tier, seed) + re_, rule=STORE_RULE, assumptions=STORE_ASSUMPTIONS)
+    if prop in ('C01', 'C02'):
         return dict(jobs=store_jobs(prop, tier, seed), rule=STORE_RULE, assumptions=STORE_ASSUMPTIONS)
     if prop == 'C04':
         return dict(jobs=store_jobs(prop, tier, seed)[:1] + offsets_jobs(tier, seed) + store_jobs(prop, tier, seed)[1:],
